@@ -120,6 +120,15 @@ Definition mean_photon_var (c : hctx K) (x p vxx vxp vpp : K) : K :=
   ((vxx * vxx + two * (vxp * vxp) + vpp * vpp) + two * (x * x * vxx + two * (x * p * vxp) + p * p * vpp))
   / (two * (hb c * hb c)) - quarter.
 
+(* BaseBosonicState.mean_photon(mode): mean = sum_i w_i (tr cov_i + mu_i . mu_i) / (2 hbar) - 1/2 over the
+   Gaussians of the linear combination; entries of l: (w_i, tr cov_i, mu_i . mu_i) in hbar units *)
+Definition bos_terms (l : list (K * K * K)) : list K :=
+  map (fun t => match t with (w, tr, dot) => w * (tr + dot) end) l.
+Definition bos_mean_photon (c : hctx K) (l : list (K * K * K)) : K :=
+  ksum (bos_terms l) / (two * hb c) - half.
+(* BaseBosonicState.fidelity_coherent prefactor hbar ** len(modes) against sqrt(det(cov + hbar/2 I)) (2N x 2N): squared *)
+Definition bos_fid_prefsq (c : hctx K) (N : nat) (detsum : K) : K := kpow (hb c) (2 * N) / detsum.
+
 (* quad_expectation(mode, phi): rot = [[c,-s],[s,c]]; muphi = rot^T mu; covphi = rot^T cov rot *)
 Definition quad_mean (cphi sphi x p : K) : K := cphi * x + sphi * p.
 Definition quad_var (cphi sphi vxx vxp vpp : K) : K :=
